@@ -21,8 +21,11 @@ struct SockClientThread : public Thread
 	{
 		_server->serve(_client);
 		_client.close();
+		{
+			Lock lock(_server->_finishedMutex);
+			_server->_finishedClients << this; // deleted later by the server: this object is still used after run()
+		}
 		--_server->_numClients;
-		delete this;
 	}
 };
 
@@ -54,6 +57,22 @@ SocketServer::~SocketServer()
 	if(_thread) {
 		_thread->kill();
 		delete _thread;
+	}
+	reapClients();
+}
+
+void SocketServer::reapClients()
+{
+	Array<SockClientThread*> finished;
+	{
+		Lock lock(_finishedMutex);
+		finished = _finishedClients.clone();
+		_finishedClients.clear();
+	}
+	foreach(SockClientThread* client, finished)
+	{
+		client->join();
+		delete client;
 	}
 }
 
@@ -108,6 +127,7 @@ void SocketServer::startLoop()
 	int n;
 	do
 	{
+		reapClients();
 		if ((n = _sockets.waitInput(2)) > 0)
 		{
 			for (int i = 0; i < n; i++)
